@@ -821,6 +821,17 @@ class Expr:
         # assert body.typ.compare_type(orelse.typ)
 
         typ = self.expr._metadata["type"]
+
+        # the annotated type is the type EXPECTED by the context, which may be
+        # wider than the type of a branch (e.g. larger DynArray / Bytes bounds).
+        # a branch is laid out according to ITS type: when the layouts differ,
+        # copy each branch into a buffer of the result type instead of
+        # re-labelling the pointer.
+        if not typ._is_prim_word and (body.typ != typ or orelse.typ != typ):
+            buf = self.context.new_internal_variable(typ)
+            body = IRnode.from_list(["seq", make_setter(buf, body), buf], typ=typ, location=MEMORY)
+            orelse = IRnode.from_list(["seq", make_setter(buf, orelse), buf], typ=typ, location=MEMORY)
+
         location = body.location
         return IRnode.from_list(["if", test, body, orelse], typ=typ, location=location)
 
